@@ -45,6 +45,7 @@ package decoder
 //@ spec isCall(n hclsyntax.Node) bool = typeis(n, "*hclsyntax.FunctionCallExpr")
 //@ contract (*decoder.PathDecoder).SignatureAtPos$1 (node) (diags)
 //@   requires d != nil && d.pathCtx != nil && file != nil && 0 <= pos.Byte && pos.Byte <= len(file.Bytes)
+//@   loop 1 iter [C20] !(v.Range().ContainsPos(pos) || v.Range().End.Byte == pos.Byte)
 //@   ensures [C20] implies(signature != old(signature), fresh(signature) && isCall(node) && node.Range().ContainsPos(pos))
 //@   ensures [C20] implies(signature != old(signature), haskey(d.pathCtx.Functions, callOf(node).Name))
 //@   ensures [C20] implies(signature != old(signature) && len(signature.Parameters) > 0, int(signature.ActiveParameter) < len(signature.Parameters))
@@ -108,6 +109,11 @@ package decoder
 //@   ensures [C06] uint(len(result.List)) <= d.maxCandidates
 //@   ensures [C06] implies(result.IsComplete, len(schema.CompletionHooks) == 0)
 //@   loop 1 invariant [C06] count == len(candidates.List) && uint(count) <= d.maxCandidates
+//@   ghost asked after invoke:CompletionAtPos#1 : true
+//@   ghost exprCands after invoke:CompletionAtPos#1 : callresult
+//@   ghost hookCount after invoke:CompletionAtPos#1 : count
+//@   loop 1 invariant [C06] count == hookCount + rangeindex + 1
+//@   ensures [C06,name:complete-means-nothing-left-out] implies(result.IsComplete && asked, len(result.List) == hookCount + len(exprCands))
 
 // ---- C06 / C07: body completion. The limit, and per iteration: a candidate is appended exactly when the
 // ---- item can still be declared and matches the typed prefix (attributes win over blocks of the same name).
@@ -137,6 +143,11 @@ package decoder
 //@ contract (*decoder.PathDecoder).symbols (d, query) (result, err)
 //@   loop 2 iter [C14] (len(symbols) == old(len(symbols)) + 1) == (query == "" || strings.Contains(symbol.Name(), query))
 //@   loop 2 iter [C14] len(symbols) == old(len(symbols)) || len(symbols) == old(len(symbols)) + 1
+//@   loop 2 iter [C14] len(symbols) == old(len(symbols)) || (typeis(symbols[len(symbols)-1], "*decoder.ExprSymbol") && as(symbols[len(symbols)-1], "*decoder.ExprSymbol").rng == hcl.RangeBetween(item.KeyExpr.Range(), item.ValueExpr.Range()))
+//@   assert before (*decoder.PathDecoder).nestedSymbolsForExpr#1 : [C14] arg1 == item
+//@   assert before (*decoder.PathDecoder).nestedSymbolsForExpr#2 : [C14] arg1 == item.ValueExpr
+//@   assert before decoder.symbolExprKind#1 : [C14] arg0 == item
+//@   assert before decoder.symbolExprKind#2 : [C14] arg0 == item.ValueExpr
 //@ contract (*decoder.PathDecoder).symbolsForBody (d, body, bodySchema) (result)
 //@   loop 1 iter [C14] len(symbols) == old(len(symbols)) + 1
 //@   loop 1 iter [C14] typeis(symbols[len(symbols)-1], "*decoder.AttributeSymbol") && as(symbols[len(symbols)-1], "*decoder.AttributeSymbol").AttrName == name && as(symbols[len(symbols)-1], "*decoder.AttributeSymbol").rng == attr.Range
@@ -146,6 +157,11 @@ package decoder
 //@   loop 1 iter [C14] len(symbols) == old(len(symbols)) + 1
 //@   loop 1 iter [C14] typeis(symbols[len(symbols)-1], "*decoder.ExprSymbol") && as(symbols[len(symbols)-1], "*decoder.ExprSymbol").rng == item.Range()
 //@   loop 2 iter [C14] len(symbols) == old(len(symbols)) || len(symbols) == old(len(symbols)) + 1
+//@   loop 2 iter [C14] len(symbols) == old(len(symbols)) || (typeis(symbols[len(symbols)-1], "*decoder.ExprSymbol") && as(symbols[len(symbols)-1], "*decoder.ExprSymbol").rng == hcl.RangeBetween(item.KeyExpr.Range(), item.ValueExpr.Range()))
+//@   assert before (*decoder.PathDecoder).nestedSymbolsForExpr#1 : [C14] arg1 == item
+//@   assert before (*decoder.PathDecoder).nestedSymbolsForExpr#2 : [C14] arg1 == item.ValueExpr
+//@   assert before decoder.symbolExprKind#1 : [C14] arg0 == item
+//@   assert before decoder.symbolExprKind#2 : [C14] arg0 == item.ValueExpr
 
 // ---- C09: addresses of targets. The context handed to element collectors is a copy whose parent address
 // ---- is its own array; block/attribute addresses are built step by step from what the schema declares.
@@ -202,3 +218,31 @@ package decoder
 //@   loop 3 iter [C13] implies(i + 1 > len(blockSchema.Labels), len(tokens) == old(len(tokens)))
 //@   loop 3 iter [C13] implies(i + 1 <= len(blockSchema.Labels), len(tokens) == old(len(tokens)) + 1 && tokens[len(tokens)-1].Type == lang.TokenBlockLabel && tokens[len(tokens)-1].Range == labelRange)
 //@   loop 3 iter [C13] implies(i + 1 <= len(blockSchema.Labels), !samearray(tokens[len(tokens)-1].Modifiers, blockModifiers) && !samearray(tokens[len(tokens)-1].Modifiers, parentModifiers) && len(tokens[len(tokens)-1].Modifiers) == len(parentModifiers) + len(blockSchema.SemanticTokenModifiers) + len(blockSchema.Labels[i].SemanticTokenModifiers))
+
+// ---- C10: self.* origins are collected only in bodies that enable them: the context handed to the
+// ---- expressions of a body has self references active only if this body's schema says so, and nested
+// ---- bodies start from a context without them.
+//@ contract (*decoder.PathDecoder).referenceOriginsInBody (d, body, bodySchema) (origins, impliedOrigins)
+//@   loop 1 invariant [C10] implies(schema.ActiveSelfRefsFromContext(ctx), bodySchema.Extensions != nil && bodySchema.Extensions.SelfRefs)
+//@   assert before invoke:ReferenceOrigins#1 : [C10] implies(schema.ActiveSelfRefsFromContext(arg0), bodySchema.Extensions != nil && bodySchema.Extensions.SelfRefs)
+
+// ---- C16/C02: documentation links are attached to exactly the dependency keys that selected the body: one
+// ---- link per label key, on the label that key names (by its Index, not by its position in the key list),
+// ---- and one per attribute key written in the block, on that attribute's value.
+//@ contract (*decoder.PathDecoder).linksInBody (d, body, bodySchema) (links, err)
+//@   loop 2 iter [C16] len(links) == old(len(links)) + 1 && links[len(links)-1].Range == block.LabelRanges[dk.Labels[rangeindex].Index]
+//@   loop 3 iter [C16] len(links) == old(len(links)) || (len(links) == old(len(links)) + 1 && haskey(block.Body.Attributes, dk.Attributes[rangeindex].Name) && links[len(links)-1].Range == block.Body.Attributes[dk.Attributes[rangeindex].Name].Expr.Range())
+
+// ---- C12: an object item is described with the schema of its own key: the attribute schema used for the
+// ---- key's hover and the constraint the value is handed to are the ones declared under that item's name.
+//@ contract (decoder.Object).HoverAtPos (obj, ctx, pos) (result)
+//@   requires [C12] obj.expr.Range().ContainsPos(pos)
+//@   ensures [C12] result == nil || (result.Range.ContainsPos(pos) && len(result.Content.Value) > 0)
+//@   assert before decoder.hoverContentForAttribute#1 : [C12] isRawKey && haskey(obj.cons.Attributes, attrName) && arg1 == obj.cons.Attributes[attrName]
+//@   assert before decoder.newExpression#2 : [C12] isRawKey && haskey(obj.cons.Attributes, attrName) && arg2 == obj.cons.Attributes[attrName].Constraint
+
+// ---- C02/C06: the edit range of reference candidates is well formed and reaches the cursor (the walk hands
+// ---- the same range to every candidate).
+//@ contract (decoder.Reference).CompletionAtPos (ref, ctx, pos) (result)
+//@   assert before (reference.Targets).MatchWalk#1 : [C02,C06] arg5.Start.Byte <= arg5.End.Byte && arg5.End.Byte == pos.Byte
+//@   assert before (reference.Targets).MatchWalk#2 : [C02,C06] arg5.Start.Byte <= arg5.End.Byte && arg5.Start.Byte <= pos.Byte && pos.Byte <= arg5.End.Byte
